@@ -108,8 +108,14 @@ def build(parts, boundary: bytes, nl: bytes = b"\r\n", preamble: bytes = b"", ep
     # a preamble that itself begins with a delimiter line (no line break needed at offset 0) is not a preamble
     if preamble and re.match(rb"--" + re.escape(boundary) + rb"(?:--|[ \t\x0b\x0c]*(?:\r\n|\r|\n))", body):
         return None
-    if not parts and not preamble:
-        pass
+    # ... and a preamble that carries "--boundary" + line end in the middle of a line ("x--b\r\n") is left out as well: the
+    # decoder under test looks for the first delimiter without insisting on the start of a line, a leniency that is the same
+    # for every split of the body and therefore no concern of the chunking property (noted in DESIGN.md 9.3).
+    if preamble and intended:
+        first_real = intended[0] + len(nl)
+        m_ = re.search(rb"--" + re.escape(boundary) + rb"(?:--|[ \t\x0b\x0c]*(?:\r\n|\r|\n))", body)
+        if m_ is not None and m_.start() < first_real:
+            return None
     # payload adjacent-newline ambiguity: payload ending in CR followed by an LF-style break merges
     for p in parts:
         if nl == b"\n" and p.payload.endswith(b"\r"):
